@@ -137,6 +137,12 @@ func (w *World) verifyFunction(fn *ssa.Function, fc *FuncContract) (res *FuncRes
 			enc.splits = append(enc.splits, fr.safeTr(pre, sp))
 		}
 	}
+	if fc != nil && fc.Iterates != nil {
+		enc.assume(Eq(entry.Get("$it.next", "Int"), IntLit(0)), "iterator protocol: nothing visited yet")
+		enc.assume(Not(entry.Get("$it.stopped", "Bool")), "iterator protocol: not stopped")
+		st.Set("$it.next", entry.Get("$it.next", "Int"))
+		st.Set("$it.stopped", entry.Get("$it.stopped", "Bool"))
+	}
 	// global facts (constant package variables)
 	fr.assumeGlobals(entry)
 	if fn.Name() == "init" && fn.Pkg != nil {
@@ -209,8 +215,32 @@ func (w *World) verifyFunction(fn *ssa.Function, fc *FuncContract) (res *FuncRes
 		t := fr.safeTr(post, en)
 		enc.oblige(fmt.Sprintf("ensures_check%d", i+1), en.Where(), en.Text, en.Tags, anyRet, t)
 	}
+	if fc.Iterates != nil {
+		// protocol: on return every element has been offered, or the callback stopped the iteration
+		ienv := fr.iterEnv(fc, paramTerms(fr, fn), paramTypes(fn), entry, nil)
+		cnt := fr.trIterExpr(ienv, nil, func() TV { return ienv.tr(fc.Iterates.Count) }).T
+		enc.oblige("iterator:protocol", fn.Name(), "on return the callback stopped the iteration or every element was offered: "+fc.Iterates.Text, nil, anyRet,
+			Or(final.Get("$it.stopped", "Bool"), Le(cnt, final.Get("$it.next", "Int"))))
+		return // the callback may write anything: no frame obligations for the iterator itself
+	}
 	fr.frameObligations(fc, pre, entry, final, anyRet)
 	return
+}
+
+func paramTerms(fr *Frame, fn *ssa.Function) []*Term {
+	var out []*Term
+	for _, p := range fn.Params {
+		out = append(out, fr.vals[p])
+	}
+	return out
+}
+
+func paramTypes(fn *ssa.Function) []types.Type {
+	var out []types.Type
+	for _, p := range fn.Params {
+		out = append(out, p.Type())
+	}
+	return out
 }
 
 // assumeGlobals adds the declared facts about constant package-level variables.
